@@ -301,9 +301,18 @@ for step,op in enumerate(cfg['hist']):
         if lib.h_sys_get_t(p)!=1.5: problems.append('step %d: re-ini clock'%step)
     q=P[cur]
     if abs(lib.h_sys_get_tini(q)-tini)>1e-12 or abs(lib.h_sys_get_t(q)-texp)>1e-12: problems.append('step %d (%s): t_ini %.17g t %.17g expected %.17g %.17g'%(step,op,lib.h_sys_get_tini(q),lib.h_sys_get_t(q),tini,texp)); break
+if cfg.get('probe') and not problems:
+    # the ODE callback called the way some GSL steppers call it (rk4's step doubling, msadams): a new input array together with the output array of the
+    # previous call; the derivative written must be that of the new input (compared with the same call into a fresh output array)
+    q=P[cur]; n=nx*(nrho*d*d+nsc)
+    if mask==0: lib.h_sys_switches(q,1,0)
+    lib.h_sys_rhs_probe.argtypes=[V,U,V,V,Dd,V]
+    y1=(Dd*n)(*[rng.uniform(-.5,.5) for _ in range(n)]); y2=(Dd*n)(*[rng.uniform(-.5,.5) for _ in range(n)]); res=(Dd*2)()
+    rc=lib.h_sys_rhs_probe(q,n,y1,y2,texp+0.1,res)
+    if rc==0 and res[1]>1e-6 and res[0]>1e-12: problems.append('after the history the ODE callback, given a new input array with the output array of the previous call, does not compute the derivative of that input (difference %.3g to the derivative written into a fresh output array)'%res[0])
 print(json.dumps(problems))
 '''
-    cfg = dict(hist=c['hist'], d=c['d'], nx=c['nx'], nrho=c['nrho'], nsc=c['nsc'])
+    cfg = dict(hist=c['hist'], d=c['d'], nx=c['nx'], nrho=c['nrho'], nsc=c['nsc'], probe=('stale-view' in c.get('key', '')))
     try:
         p = subprocess.run([sys.executable, '-c', code, so, json.dumps(cfg)], capture_output=True, text=True, timeout=300)
     except subprocess.TimeoutExpired:
